@@ -93,6 +93,7 @@ func main() {
 	r := rand.New(rand.NewSource(*seed))
 	streamAllows(o)
 	streamConfig(o, r, *nCfg)
+	streamConfigParse(o, r, *nCfg)
 	streamSuggest(o, r, *nSug)
 	streamUpdate(o, r, *nUpd)
 	streamRelax(o, r, *nRel)
